@@ -114,6 +114,10 @@ func runC19(r *vf.Run) {
 			c.Render()
 			return c
 		}},
+		wf{"punctuation-in-bare-headers-1", func() *gen.CSVFile { return c19PunctHeaders([]string{"id", "price (eur;usd;gbp)"}) }},
+		wf{"punctuation-in-bare-headers-2", func() *gen.CSVFile { return c19PunctHeaders([]string{"a;b;c", "d"}) }},
+		wf{"punctuation-in-bare-headers-3", func() *gen.CSVFile { return c19PunctHeaders([]string{"size (w|h)"}) }},
+		wf{"punctuation-in-bare-headers-4", func() *gen.CSVFile { return c19PunctHeaders([]string{"x\ty\tz", "k|l|m|n", "p"}) }},
 		wf{"all-fields-empty", func() *gen.CSVFile {
 			c := &gen.CSVFile{Header: []string{"a", "b", "c"}, Columns: []string{"a", "b", "c"}}
 			for i := 0; i < 30; i++ {
@@ -545,4 +549,23 @@ func blankBeforeQuote(n int) string {
 	}
 	f[1] = ` "quoted after a blank"`
 	return strings.Join(f, ",") + "\n"
+}
+
+// c19PunctHeaders (round 8): header fields written bare (no quotes) that contain the characters other tools use as
+// separators -- ';', '|', TAB -- more often than the line contains commas; records whose fields contain them too. The
+// file is comma-separated like every input of this command, and each of those characters in a name becomes '_'.
+func c19PunctHeaders(header []string) *gen.CSVFile {
+	c := &gen.CSVFile{Header: header}
+	for _, h := range header {
+		c.Columns = append(c.Columns, gen.NormalizeHeader(h))
+	}
+	for i := 0; i < 60; i++ {
+		var rec []string
+		for k := range header {
+			rec = append(rec, []string{fmt.Sprint(i % 7), fmt.Sprintf("%d;%d;%d", i%3, i%4, i%2), fmt.Sprintf("w|%d", i%5), "t\t" + fmt.Sprint(i%2)}[(i+k)%4])
+		}
+		c.Records = append(c.Records, rec)
+	}
+	c.RenderStyle("minimal", "\n")
+	return c
 }
